@@ -529,6 +529,53 @@ theorem leave_rewalk_removed {σ : Store} {back : Bool} {g : LB.Gen} {φ : FstId
     LB.stepLeave σ back g = ({ g with ctl := .running }, none) := by
   simp [LB.stepLeave, hs, hx]
 
+/-! ## `search()` as a consumer-side wrapper: the consumer's `send` wins over the automatic one -/
+
+/-- **search_consumer_send_wins.** Whatever `nested` is, if the consumer sent anything for a match, exactly the
+consumer's values reach the walk generator, in order; `search` adds its own `send(False)` only when the consumer sent
+nothing and `nested=False`. -/
+theorem search_consumer_send_wins (nested : Bool) (sends : List Bool) (h : sends ≠ []) :
+    Search.forwarded nested sends = sends := by
+  cases sends with
+  | nil => exact absurd rfl h
+  | cons b bs => rfl
+
+theorem search_auto_send (nested : Bool) :
+    Search.forwarded nested [] = if nested then [] else [false] := rfl
+
+/-- the last value sent is the one in effect (`Can send multiple times, last value sent takes effect`) -/
+theorem send_last {s : St} {φ : FstId} {r : Rec} (hs : s.ctl = .yielded φ r) (bs : List Bool) (b : Bool) :
+    ((bs ++ [b]).foldl (fun s b => send b s) s).ctl = .yielded φ (if b then .one else .no) ∧
+    ((bs ++ [b]).foldl (fun s b => send b s) s).frames = s.frames ∧
+    ((bs ++ [b]).foldl (fun s b => send b s) s).back = s.back := by
+  induction bs generalizing s r with
+  | nil => simp [send, hs]
+  | cons c cs ih =>
+    have h1 : (send c s).ctl = .yielded φ (if c then .one else .no) := by simp [send, hs]
+    have := ih (s := send c s) h1
+    simp only [List.cons_append, List.foldl_cons]
+    refine ⟨this.1, ?_, ?_⟩
+    · rw [this.2.1]; simp [send, hs]
+    · rw [this.2.2]; simp [send, hs]
+
+/-- **search_send_true_honoured.** Through `search(pat, nested)` — for either value of `nested` — a consumer that
+answers a match with `send(True)` (last) gets the children of the matched node's current AST pushed, exactly as with
+`walk` itself; in particular `nested=False` does not override it. -/
+theorem search_send_true_honoured {σ : Store} {s : St} {φ : FstId} {r : Rec} {fr : Frame} {rest : List Frame} {x : AstId}
+    (nested : Bool) (bs : List Bool) (hs : s.ctl = .yielded φ r) (hf : s.frames = fr :: rest) (hx : σ.a φ = some x) :
+    let s' := (Search.forwarded nested (bs ++ [true])).foldl (fun s b => send b s) s
+    (step σ s').2 = none ∧ stackAll (step σ s').1 = order s.back (σ.kids x) ++ stackAll s := by
+  intro s'
+  have hfw : Search.forwarded nested (bs ++ [true]) = bs ++ [true] :=
+    search_consumer_send_wins nested _ (by simp)
+  have hl := send_last hs bs true
+  have h1 : s'.ctl = .yielded φ .one := by simp only [s', hfw]; simpa using hl.1
+  have h2 : s'.frames = fr :: rest := by simp only [s', hfw]; rw [hl.2.1]; exact hf
+  have h3 : s'.back = s.back := by simp only [s', hfw]; exact hl.2.2
+  have h4 : stackAll s' = stackAll s := by simp [stackAll, h2, hf]
+  have := replaced_children_next (σ := σ) h1 h2 (by simp) hx
+  exact ⟨this.1, by rw [this.2.2, h3, h4]⟩
+
 /-! ## Non-vacuity: a concrete tree, the walk of `[[a, b], c]` with the consumer replacing `[a, b]` by `[x, y]` when it
 is yielded, then removing `c`'s predecessor… run through the executable machine. -/
 
